@@ -1183,7 +1183,9 @@ impl<'t> Gen<'t> {
           let a = self.expr(&Ty::Int, cx, d);
           let b = if op == "/" || op == "%" {
             // recorded finding: a division whose divisor may be zero is hoisted out of its guard and traps
-            if self.t.bool(3, 4) || !self.cfg.possibly_zero_divisor {
+            // (with the same-operand finding open, inlining / value numbering can make any two run-time
+            // operands "the same variable", so divisors are literals there)
+            if self.t.bool(3, 4) || !self.cfg.possibly_zero_divisor || !self.cfg.same_operand_division {
               let v = [1, 2, 3, 7, -1, -2, -3, 10][self.t.choose(8)];
               if self.t.bool(1, 2) { Expr::new(Ty::Int, EK::OpaqueInt(v)) } else { Expr::new(Ty::Int, EK::Int(v)) }
             } else {
